@@ -593,18 +593,23 @@ class CFG:
 
     # ---- light path sensitivity: None-ness of locals ----------------------------
     def _null_vars(self):
+        """flag locals: assigned a falsy constant (None / False / 0 / '') somewhere and tested with
+        `is None` / `is not None` or by plain truthiness; copies of flag locals are flags too"""
         if getattr(self, "_nv", None) is None:
-            assigned_none, tested = set(), set()
+            assigned_falsy, tested = set(), set()
             for n in self.nodes:
                 a = n.ast
-                if n.kind == "stmt" and isinstance(a, ast.Assign) and len(a.targets) == 1 and isinstance(a.targets[0], ast.Name):
-                    if isinstance(a.value, ast.Constant) and a.value.value is None:
-                        assigned_none.add(a.targets[0].id)
+                if n.kind == "stmt" and isinstance(a, (ast.Assign, ast.AnnAssign)) and getattr(a, "value", None) is not None:
+                    tg = a.targets if isinstance(a, ast.Assign) else [a.target]
+                    if len(tg) == 1 and isinstance(tg[0], ast.Name) and isinstance(a.value, ast.Constant) and not a.value.value:
+                        assigned_falsy.add(tg[0].id)
                 if n.kind == "test":
                     for t, p in atoms(a, True):
                         if t.endswith(" is None") and t[:-8].isidentifier():
                             tested.add(t[:-8])
-            tracked = set(assigned_none)
+                        elif t.isidentifier():
+                            tested.add(t)
+            tracked = set(assigned_falsy)
             changed = True
             while changed:  # copies of tracked names are tracked too
                 changed = False
@@ -617,11 +622,27 @@ class CFG:
             self._nv = tracked if tracked & tested else set()
         return self._nv
 
+    @staticmethod
+    def _flag_state(v, st, vars_):
+        """abstract value of an assigned expression: N None, F falsy constant, X truthy, ? unknown"""
+        if isinstance(v, ast.Constant):
+            if v.value is None:
+                return "N"
+            return "X" if v.value else "F"
+        if isinstance(v, ast.Name) and v.id in vars_:
+            return st[vars_.index(v.id)]
+        if isinstance(v, (ast.Tuple, ast.List)):
+            return "X" if v.elts else "F"
+        if isinstance(v, ast.Dict):
+            return "X" if v.keys else "F"
+        if isinstance(v, ast.JoinedStr):
+            return "?"
+        return "?"
+
     def reach_ps(self, avoid=(), start=None, labels_skip=(), cut_edges=(), cut=()):
         """Nodes reachable from `start` (default entry) without entering `avoid`, on the
-        product of the CFG with the None-ness (N / X / ?) of the locals that are
-        assigned None somewhere and tested with `is None`: branches that contradict the
-        tracked None-ness are infeasible and pruned."""
+        product of the CFG with the abstract value (None / falsy constant / truthy / unknown) of
+        the flag locals: branches that contradict the tracked value are infeasible and pruned."""
         vars_ = sorted(self._null_vars())
         avoid = set(avoid)
         start = start or self.entry
@@ -633,24 +654,21 @@ class CFG:
             n, st = stack.pop()
             st2 = st
             a = n.ast
-            if vars_ and n.kind == "stmt" and isinstance(a, ast.Assign):
+            if vars_ and n.kind == "stmt" and isinstance(a, (ast.Assign, ast.AnnAssign)) and getattr(a, "value", None) is not None:
                 lst = list(st)
-                for t in a.targets:
+                for t in (a.targets if isinstance(a, ast.Assign) else [a.target]):
                     for nm in ast.walk(t):
                         if isinstance(nm, ast.Name) and nm.id in vars_:
                             i = vars_.index(nm.id)
-                            if t is nm:
-                                v = a.value
-                                if isinstance(v, ast.Constant) and v.value is None:
-                                    lst[i] = "N"
-                                elif isinstance(v, ast.Name) and v.id in vars_:
-                                    lst[i] = st[vars_.index(v.id)]
-                                elif isinstance(v, (ast.Tuple, ast.List, ast.Dict, ast.Constant, ast.JoinedStr)):
-                                    lst[i] = "X"
-                                else:
-                                    lst[i] = "?"
-                            else:
-                                lst[i] = "?"
+                            lst[i] = self._flag_state(a.value, st, vars_) if t is nm else "?"
+                st2 = tuple(lst)
+            elif vars_ and n.kind in ("stmt", "for") and a is not None and not isinstance(a, (ast.Assign, ast.AnnAssign)):
+                # any other binding of a flag local (loop target, augmented assignment, with-as, walrus) forgets it
+                lst = list(st)
+                tgt = a.target if n.kind == "for" else a
+                for nm in ast.walk(tgt):
+                    if isinstance(nm, ast.Name) and isinstance(nm.ctx, ast.Store) and nm.id in vars_:
+                        lst[vars_.index(nm.id)] = "?"
                 st2 = tuple(lst)
             for m, label in self.succ[n]:
                 if label in labels_skip or m in avoid or (n, m, label) in cut_edges or (n, m) in cut:
@@ -662,10 +680,20 @@ class CFG:
                     for t, p in atoms(a, label == "T"):
                         if t.endswith(" is None") and t[:-8] in vars_:
                             i = vars_.index(t[:-8])
-                            want = "N" if p else "X"
-                            if lst[i] != "?" and lst[i] != want:
+                            if p:
+                                if lst[i] not in ("N", "?"):
+                                    feasible = False
+                                lst[i] = "N"
+                            elif lst[i] == "N":
                                 feasible = False
-                            lst[i] = want
+                        elif t in vars_:
+                            i = vars_.index(t)
+                            if p:
+                                if lst[i] not in ("X", "?"):
+                                    feasible = False
+                                lst[i] = "X"
+                            elif lst[i] == "X":
+                                feasible = False
                     if not feasible:
                         continue
                     st3 = tuple(lst)
